@@ -49,12 +49,14 @@ pub fn dataset(family: &str, dim: usize, n: usize, seed: u64, unit: bool) -> Vec
                 out.push(v);
             }
         }
-        "gaussian-clusters" => {
+        "gaussian-clusters" | "gaussian-clusters-tight" => {
             let k = 16;
-            let centres: Vec<Vec<f64>> = (0..k).map(|_| (0..dim).map(|_| r.gauss() * 2.0).collect()).collect();
+            // "tight": well separated clusters (centre spread 1, point spread 0.03)
+            let (cs, ps) = if family == "gaussian-clusters-tight" { (1.0, 0.03) } else { (2.0, 0.4) };
+            let centres: Vec<Vec<f64>> = (0..k).map(|_| (0..dim).map(|_| r.gauss() * cs).collect()).collect();
             for i in 0..n {
                 let c = &centres[i % k];
-                let mut v: Vec<f32> = c.iter().map(|x| (x + r.gauss() * 0.4) as f32).collect();
+                let mut v: Vec<f32> = c.iter().map(|x| (x + r.gauss() * ps) as f32).collect();
                 if unit {
                     normalise(&mut v);
                 }
@@ -108,8 +110,16 @@ fn build_route(route: &str, metric: DistanceMetric, dim: usize, live: &[(u64, Ve
     let cap = (live.len() + filler.len() + 16).max(64);
     match route {
         "online" => {
+            // documents arrive in a (fixed, seeded) shuffled order: arrival order is not id order
             let b = HnswBackend::new(dim, metric, vec![], vec![], cap)?;
-            for (id, v) in live {
+            let mut order: Vec<usize> = (0..live.len()).collect();
+            let mut r = Rng(0x5eed_0001 ^ live.len() as u64);
+            for i in (1..order.len()).rev() {
+                let j = (r.next() % (i as u64 + 1)) as usize;
+                order.swap(i, j);
+            }
+            for i in order {
+                let (id, v) = &live[i];
                 b.insert(*id, v.clone(), Default::default())?;
             }
             Ok(b)
@@ -197,8 +207,16 @@ pub fn run_cell(cell: &Cell, scratch: &Scratch) -> CellOut {
     // one pool from one seed, so that live documents, deleted fillers and queries come from the
     // SAME distribution (same cluster centres / same manifold)
     let nfill = cell.size * 3 / 2;
-    let pool = dataset(cell.family, cell.dim, cell.size + nfill + NQ, seed, unit);
-    let data: Vec<Vec<f32>> = pool[..cell.size].to_vec();
+    let grouped = cell.family == "gaussian-clusters-grouped";
+    let pool = dataset(if grouped { "gaussian-clusters-tight" } else { cell.family }, cell.dim, cell.size + nfill + NQ, seed, unit);
+    let mut data: Vec<Vec<f32>> = pool[..cell.size].to_vec();
+    if grouped {
+        // document ids in cluster-major order (dataset() deals the 16 clusters round-robin): the
+        // graph is then built cluster by cluster on every route that inserts in id order
+        let mut idx: Vec<usize> = (0..data.len()).collect();
+        idx.sort_by_key(|i| (i % 16, *i));
+        data = idx.into_iter().map(|i| data[i].clone()).collect();
+    }
     let filler: Vec<Vec<f32>> = pool[cell.size..cell.size + nfill].to_vec();
     let queries: Vec<Vec<f32>> = pool[cell.size + nfill..].to_vec();
     let live: Vec<(u64, Vec<f32>)> = data.iter().enumerate().map(|(i, v)| (i as u64, v.clone())).collect();
@@ -297,6 +315,16 @@ pub fn cells(tier: &str) -> Vec<Cell> {
                 v.push(Cell { family, metric, dim, size: 500 });
             }
         }
+        // one cell above the size where the adaptive ef stops being exhaustive (1024), built
+        // cluster by cluster
+        v.push(Cell { family: "gaussian-clusters-grouped", metric: "euclidean", dim: 8, size: 4000 });
+    }
+    if tier == "thorough" {
+        for metric in metrics {
+            for (dim, size) in [(8usize, 4000usize), (16, 5000), (32, 2000)] {
+                v.push(Cell { family: "gaussian-clusters-grouped", metric, dim, size });
+            }
+        }
     }
     v
 }
@@ -333,7 +361,7 @@ pub fn run(tier: &str, replay: Option<&str>) -> i32 {
     }
     ev.set("evaluations", searches);
     ev.set("distinct_nontrivial", outs.iter().map(|o| o.recalls.len() as u64).sum::<u64>());
-    ev.set("rule", format!("fixed grid, fixed seeds: family {{uniform sphere, Gaussian clusters, low-dimensional manifold}} x metric x dimension x size ({} cells) x build route {{online inserts, bulk build, 60 % delete + forced tombstone compaction, snapshot + recovery rebuild, and the heavy-delete route BEFORE compaction with 30 % / 45 % / 60 % of the slots tombstoned}}, 200 queries each at the default index parameters; recall@10 against an f64 brute force must be >= 0.80, the recall of two routes of one cell must not differ by more than 0.10, and every query repeated from another thread must return bit-identical distances and the same documents except among exactly tied distances. distinct_nontrivial = (cell, route) pairs built and measured", cs.len()));
+    ev.set("rule", format!("fixed grid, fixed seeds: family {{uniform sphere, Gaussian clusters, low-dimensional manifold, tight, well separated Gaussian clusters with cluster-major document ids (graph built cluster by cluster, sizes above the 1024-vector exhaustive-ef regime)}} x metric x dimension x size ({} cells) x build route {{online inserts in a seeded shuffled arrival order, bulk build (id order), 60 % delete + forced tombstone compaction, snapshot + recovery rebuild, and the heavy-delete route BEFORE compaction with 30 % / 45 % / 60 % of the slots tombstoned}}, 200 queries each at the default index parameters; recall@10 against an f64 brute force must be >= 0.80, the recall of two routes of one cell must not differ by more than 0.10, and every query repeated from another thread must return bit-identical distances and the same documents except among exactly tied distances. distinct_nontrivial = (cell, route) pairs built and measured", cs.len()));
     ev.set("samples", json!(table.iter().take(3).collect::<Vec<_>>()));
     ev.set("exhaustive", true);
     ev.set("grid_cells", cs.len() as u64);
